@@ -290,7 +290,7 @@ func vh_C20_L6_timer_loop_fires_callbacks_unlocked() {
 	a.cwnd, a.rwnd = 1<<20, 1<<20
 	_ = vWriterPass(a)
 	vassert(a.inflightQueue.size() == 1 && !a.ptoDeadline.IsZero(), "data in flight, tail-loss probe armed")
-	<-time.After(time.Second) // nothing arrives: the probe deadline passes while this goroutine waits
+	<-time.After(2 * time.Second) // nothing arrives: the probe deadline passes while this goroutine waits
 	a.lock.RLock()
 	fired := a.tlrActive
 	a.lock.RUnlock()
